@@ -8,6 +8,7 @@ from __future__ import annotations
 
 import itertools
 import math
+import random
 import types
 
 import xxhash
@@ -19,7 +20,7 @@ RULE = ('string frames (1..12 rows, 2..6 non-label columns, label present/absent
         'adversarial low-cardinality pools: digit strings that are prefixes/suffixes of one another, empty strings, values made '
         'of digits and ":" that imitate a length prefix, unicode (combining marks, astral, NBSP), delimiters; row labels default '
         'or (1/3) permuted / reversed / offset / string labels (columns must align by position); column names plain, '
-        'with spaces/unicode, or containing " AND " (name clashes); orders 0..5 (mostly 2..4), caps 0..C(n,k)+3, the AND_REL '
+        'with spaces/unicode, or containing " AND " (name clashes); one birthday frame of 2*10^5 pairwise different rows (the digest must behave like 64 bits); orders 0..5 (mostly 2..4), caps 0..C(n,k)+3, the AND_REL '
         '(3mr) variant, 1..3 consecutive calls on the same sampler counter. Non-trivial = a call that appended a column in which '
         'some two rows agree on every constituent and some two rows differ in exactly one constituent; distinct = distinct '
         '(frame, label, order, cap, variant, calls).')
@@ -261,6 +262,50 @@ def evaluate(ctx: Ctx, cases, oracle_only=False):
         ctx.sample({'case': small, 'impl_columns': [x[0] for x in outs[0]['out']] if outs and outs[0]['ok'] else outs[:1]})
 
 
+def birthday(ctx: Ctx, nrows=200_000):
+    """"up to 64-bit hash collisions": on N pairwise different value tuples a 64-bit digest collides with probability
+    ~ N^2 / 2^65 (1e-9 for N = 2*10^5), a 32-bit one almost surely (expected N^2 / 2^33 = 4.7 collisions).  One big frame of
+    pairwise different rows: the interaction column must have N different values."""
+    import pandas as pd
+    from outrank import core_ranking as cr
+    cr.GLOBAL_PRIOR_COMB_COUNTS.clear()
+    # values are 16 random hex characters: short structured strings (small integers) never collide even under xxh32, whose
+    # mixing is injective on inputs that differ in a few low bytes, so they would not discriminate
+    r = random.Random(20141025)
+    pool = ['%016x' % r.getrandbits(64) for _ in range(2 * 1000)]
+    a = [pool[i % 1000] for i in range(nrows)]
+    b = [pool[1000 + i // 1000] for i in range(nrows)]
+    df = pd.DataFrame({'a': a, 'b': b})
+    args = types.SimpleNamespace(label_column='label', interaction_order=2, combination_number_upper_bound=8,
+                                 reference_model_JSON='', heuristic='MI-numba-randomized')
+    ctx.evaluations += 1
+    ctx.count('birthday-frame(%d distinct tuples)' % nrows)
+    case = {'birthday': nrows}
+    try:
+        out = cr.compute_combined_features(df, args, PB(), False)
+    except Exception as e:   # noqa: BLE001
+        ctx.oracle_fail('raises', f'birthday frame ({nrows} rows): compute_combined_features raised {type(e).__name__}: {e}', case)
+        return
+    finally:
+        cr.GLOBAL_PRIOR_COMB_COUNTS.clear()
+    if 'a AND b' not in out.columns:
+        ctx.oracle_fail('name', f'birthday frame: no column "a AND b" among {list(out.columns)}', case)
+        return
+    vals = out['a AND b'].tolist()
+    distinct = len(set(vals))
+    ctx.nontrivial.add(('birthday', nrows))
+    if len(vals) != nrows or distinct != nrows:
+        seen, wit = {}, None
+        for i, v in enumerate(vals):
+            if v in seen:
+                wit = (seen[v], i)
+                break
+            seen[v] = i
+        w = f'rows {wit[0]} and {wit[1]} hold {(a[wit[0]], b[wit[0]])} / {(a[wit[1]], b[wit[1]])} but the same interaction value {vals[wit[0]]!r}' if wit else ''
+        ctx.oracle_fail('hash-width', f'{nrows} pairwise different value tuples give only {distinct} different interaction values ({w}): '
+                        f'that many collisions have probability ~1e-9 under a 64-bit hash', case)
+
+
 def witness(cols, combo, vals):
     d = dict((a, b) for a, b in cols)
     rows = list(zip(*[d[x] for x in combo]))
@@ -336,6 +381,15 @@ def run(ctx: Ctx):
     n = 30000 if ctx.thorough() else 1500
     cases = corpus() + [gen_case(ctx.rng, ctx.thorough()) for _ in range(n)]
     evaluate(ctx, cases)
+    birthday(ctx, 400_000 if ctx.thorough() else 200_000)
+
+
+def replay(ctx: Ctx, payload):
+    c = payload['case']
+    if 'birthday' in c:
+        birthday(ctx, c['birthday'])
+    else:
+        evaluate(ctx, [c])
 
 
 def search(ctx: Ctx):
@@ -343,4 +397,5 @@ def search(ctx: Ctx):
     sub.rng.seed(f'search:{ctx.seed}')
     cases = [gen_case(sub.rng, True) for _ in range(3200)]
     evaluate(sub, cases, oracle_only=True)
+    birthday(sub, 400_000)
     return sub.oracle_failures
